@@ -56,6 +56,65 @@ Theorem C08_pipeline : forall pw pwr gpow k s n s1 rt, PwOk pw -> known_rule rt 
 Proof. exact weaver_pipeline. Qed.
 Print Assumptions C08_pipeline.
 
+(** ======== shifting or scaling commutes with the recreate + match pipeline ======== *)
+From TW Require Import Model.RfaSpec Proofs.CommuteProofs.
+Definition res_map {A B} (f : A -> B) (r : res A) : res B := match r with Ok v => Ok (f v) | Raise e => Raise e end.
+
+(** strategies whose values are computed by the library (a user-supplied sampling function may depend on units arbitrarily) *)
+Definition window_strategy_ok (n : nat) (gpow : Qc -> Qc) (k : rfa_kind) : Prop :=
+  match k with
+  | PiecewiseConstant => True
+  | LinearFixed alpha a => (window_a n alpha a <= Z.of_nat n)%Z
+  | LinearAdaptive alpha a => (window_a n alpha a <= Z.of_nat n)%Z /\ GpowPos gpow
+  | ExpFixed alpha beta a => (window_a n alpha a <= Z.of_nat n)%Z /\ 0 <= beta /\ beta <= 1
+  | ExpAdaptive alpha beta a => (window_a n alpha a <= Z.of_nat n)%Z /\ 0 <= beta /\ beta <= 1 /\ GpowPos gpow
+  | FunctionSampled _ => False
+  end.
+
+Definition pipeline (n : Z) (pwr gpow : Qc -> Qc) (k : rfa_kind) (pw : Qc -> Qc) (rt : rule) : list op :=
+  [ORecreate n pwr gpow k; OMatch pw (ByStrategy Closest) rt Rectangle].
+
+Definition same_series (s1 s2 : wstate) : Prop :=
+  wx s1 = wx s2 /\ wy s1 = wy s2 /\ wrx s1 = wrx s2 /\ wry s1 = wry s2.
+
+(** matching is homogeneous in the values: scaling target and reference values scales the result (every mode, every rule) *)
+Theorem C08_match_scale_y : forall pw x y xr yr m rt rr a, length x = length y -> length xr = length yr ->
+  match_ref pw x (map (Qcmult a) y) xr (map (Qcmult a) yr) m rt rr = res_map (map (Qcmult a)) (match_ref pw x y xr yr m rt rr).
+Proof. exact match_scale_y. Qed.
+Print Assumptions C08_match_scale_y.
+
+Theorem C08_commute_scale_y : forall pw pwr gpow k rt n s, PwOk pw -> known_rule rt -> (2 <= n)%Z -> window_strategy_ok (Z.to_nat n) gpow k ->
+  Inv s -> ssorted (wx s) -> (2 <= length (wx s))%nat -> length (wx s) = length (wy s) ->
+  forall a s1 s2, a <> 0 -> 
+  run s (OScaleY a :: pipeline n pwr gpow k pw rt) = (s1, Ok tt) -> run s (pipeline n pwr gpow k pw rt ++ [OScaleY a]) = (s2, Ok tt) ->
+  same_series s1 s2.
+Proof. exact commute_scale_y. Qed.
+Print Assumptions C08_commute_scale_y.
+
+Theorem C08_commute_shift_y : forall pw pwr gpow k rt n s, PwOk pw -> known_rule rt -> (2 <= n)%Z -> window_strategy_ok (Z.to_nat n) gpow k ->
+  Inv s -> ssorted (wx s) -> (2 <= length (wx s))%nat -> length (wx s) = length (wy s) ->
+  forall b s1 s2, 
+  run s (OShiftY b :: pipeline n pwr gpow k pw rt) = (s1, Ok tt) -> run s (pipeline n pwr gpow k pw rt ++ [OShiftY b]) = (s2, Ok tt) ->
+  same_series s1 s2.
+Proof. exact commute_shift_y. Qed.
+Print Assumptions C08_commute_shift_y.
+
+Theorem C08_commute_scale_x : forall pw pwr gpow k rt n s, PwOk pw -> known_rule rt -> (2 <= n)%Z -> window_strategy_ok (Z.to_nat n) gpow k ->
+  Inv s -> ssorted (wx s) -> (2 <= length (wx s))%nat -> length (wx s) = length (wy s) ->
+  forall c s1 s2, 0 < c -> 
+  run s (OScaleX c :: pipeline n pwr gpow k pw rt) = (s1, Ok tt) -> run s (pipeline n pwr gpow k pw rt ++ [OScaleX c]) = (s2, Ok tt) ->
+  same_series s1 s2.
+Proof. exact commute_scale_x. Qed.
+Print Assumptions C08_commute_scale_x.
+
+Theorem C08_commute_shift_x : forall pw pwr gpow k rt n s, PwOk pw -> known_rule rt -> (2 <= n)%Z -> window_strategy_ok (Z.to_nat n) gpow k ->
+  Inv s -> ssorted (wx s) -> (2 <= length (wx s))%nat -> length (wx s) = length (wy s) ->
+  forall d s1 s2, 
+  run s (OShiftX d :: pipeline n pwr gpow k pw rt) = (s1, Ok tt) -> run s (pipeline n pwr gpow k pw rt ++ [OShiftX d]) = (s2, Ok tt) ->
+  same_series s1 s2.
+Proof. exact commute_shift_x. Qed.
+Print Assumptions C08_commute_shift_x.
+
 Example C08_example :
   match init (Some [qz 0; qz 1; qz 2; qz 4]) [qz 1; qz 3; qz 3; qz 0] with
   | Ok s0 =>
